@@ -5,6 +5,6 @@ if [ -n "$(git -C /repo status --porcelain)" ]; then echo "REFUSING: /repo has u
 git -C /repo apply "$P" || { echo "patch does not apply"; exit 4; }
 for prop in "$@"; do
   echo "== $(basename $(dirname $P)) vs $prop"
-  /verif/bin/govc verify -prop "$prop" -replays /root/scratch/replays 2>&1 | grep "^FAIL\|^OUT\|^functions\|^KNOWN" | cut -c1-160 | head -8
+  /verif/bin/govc verify -prop "$prop" -replays /root/scratch/replays 2>&1 | grep "^FAIL\|^OUT\|^functions\|^KNOWN\|^VIOL" | cut -c1-160 | head -8
 done
 git -C /repo checkout -- . ; git -C /repo clean -fdq
